@@ -146,13 +146,21 @@ def r1(ctx):
     OC = E.variant(f, "engine::state::Origin", "Connect", E.Tok("reason0"))
     for st, og in (("Idle", None), ("Running", "Accept"), ("Running", "Connect")):
         for rr0 in (0, 1):
-            for reported in ("same", "other"):
+            for reported in ("same", "other", "same-kind-other-reason"):
+                if reported == "same-kind-other-reason" and og != "Connect":
+                    continue
                 peer = _peer(f, E, st, og, resync=E.Int(rr0))
                 same = OC if og == "Connect" else OA
                 other = OA if og == "Connect" else OC
-                heap = {"self": peer, "origin": same if reported == "same" else other}
+                # (our own dial, started for another reason than the one recorded: it is still the session that owns the slot)
+                heap = {"self": peer, "origin": same if reported == "same" else (other if reported == "other" else E.variant(f, "engine::state::Origin", "Connect", E.Tok("reason1")))}
+
+                def reason_oracle(kind, a, b2, site):
+                    if kind in ("eq", "cmp") and str(a).startswith("reason") and str(b2).startswith("reason"):
+                        return (str(a) == str(b2)) if kind == "eq" else ((str(a) > str(b2)) - (str(a) < str(b2)))
+                    return None
                 try:
-                    ret, h, ev = E.run(f, b.path, [E.href("self"), E.href("origin"), E.Tok("result0")], heap)
+                    ret, h, ev = E.run(f, b.path, [E.href("self"), E.href("origin"), E.Tok("result0")], heap, reason_oracle)
                     sname, sfull = _state_of(f, E, h["self"])
                     rr = E.describe(E.field(f, h["self"], PSP, "resync_requested"), f)
                     rows[(st, og, rr0, reported)] = (E.describe(ret, f), sname, rr)
@@ -167,7 +175,7 @@ def r1(ctx):
         ok = ok and rr == str(rr0)
         if st == "Idle":
             ok = ok and ret == "None" and sname == "Idle"
-        elif reported == "same":
+        elif reported in ("same", "same-kind-other-reason"):
             ok = ok and ret == "Some((start0,%d))" % rr0 and sname == "Idle"
         else:
             # the result of a session that does not own the slot (our dial failed after the remote's request took the slot
